@@ -107,10 +107,13 @@ pub fn snapshot(chain: &Chain, commits: &[Commitment]) -> Result<Snap, String> {
 		};
 		if let Ok(batch) = store.batch() {
 			if let Ok(sp) = batch.get_spent_index(&cur) {
-				spent_index.insert(
-					hdr.height,
-					sp.iter().map(|p| (p.pos, p.height)).collect::<Vec<_>>(),
-				);
+				// as a SET per block: the node records the positions in the order of the block's inputs as it
+				// processed them, and that order legitimately depends on the input encoding the block arrived in
+				// ((features, commitment) order when applied directly, commit-only order when re-applied from
+				// the database during a reorganisation); nothing reads the order
+				let mut v = sp.iter().map(|p| (p.pos, p.height)).collect::<Vec<_>>();
+				v.sort_unstable();
+				spent_index.insert(hdr.height, v);
 			}
 		}
 		if let Ok(s) = chain.get_block_sums(&cur) {
